@@ -173,7 +173,7 @@ impl Callback for CsvDump {
                 &&& final(self).out_count == old(self).out_count + sum_out_counts(block.txs@, n)
                 &&& final(self).start_height == old(self).start_height
             },
-//@before `let block_hash = format!("{}", &block.header.hash);`
+//@before `let block_hash`
         let ghost txs = block.txs@;
         let ghost nt = txs.len() as int;
         proof { lemma_counts_mono(txs, nt); }
@@ -199,7 +199,7 @@ impl Callback for CsvDump {
             let ghost iw0 = self.txin_writer.log@;
             let ghost ow0 = self.txout_writer.log@;
             assert(*tx == txs[j]);
-//@after `let txid_str = format!("{}", &tx.hash);`
+//@after `let txid_str`
             assert(self.tx_writer.log@ =~= old(self).tx_writer.log@ + tx_rows(txs, block_hash@, j + 1));
             assert(sum_in_counts(txs, j + 1) == sum_in_counts(txs, j) + tx.value.in_count.value);
             assert(sum_in_counts(txs, j + 1) <= sum_in_counts(txs, nt));
@@ -210,7 +210,7 @@ impl Callback for CsvDump {
                     self.txin_writer.log@ == iw0 + in_rows(tx.value.inputs@, txid_str@, it2.index@ as int),
                     self.block_writer == old_bw, self.tx_writer.log@ == tw1, self.txout_writer.log@ == ow0,
                     self.in_count == ic0, self.out_count == oc0, self.tx_count == old(self).tx_count, self.start_height == old(self).start_height,
-//@before `for input in &tx.value.inputs {`
+//@before `for input in`
             let ghost old_bw = self.block_writer;
             let ghost tw1 = self.tx_writer.log@;
             let ghost ic0 = self.in_count;
@@ -227,7 +227,7 @@ impl Callback for CsvDump {
                     self.txout_writer.log@ == ow0 + out_rows(tx.value.outputs@, txid_str@, i as int),
                     self.block_writer == old_bw, self.tx_writer.log@ == tw1, self.txin_writer.log@ == iw1,
                     self.in_count == ic1, self.out_count == oc0, self.tx_count == old(self).tx_count, self.start_height == old(self).start_height,
-//@before `self.out_count += tx.value.out_count.value;`
+//@before `self.out_count`
             assert(sum_out_counts(txs, j + 1) == sum_out_counts(txs, j) + tx.value.out_count.value);
             assert(sum_out_counts(txs, j + 1) <= sum_out_counts(txs, nt));
             assert(self.txout_writer.log@ =~= old(self).txout_writer.log@ + all_out_rows(txs, j + 1));
